@@ -1,7 +1,8 @@
 (* Non-vacuity: the hypotheses of the group-level theorems are satisfied by reachable, non-trivial states. *)
 From Coq Require Import List Bool Arith Lia.
 From SQ Require Import Base.ListUtil Stab.Pauli Stab.Kernels Stab.Gates Stab.Tableau Stab.Group Stab.GroupGates
-  Stab.MulProof Stab.GaussProof Stab.MeasureProof Stab.Engine Stab.EngineProof.
+  Stab.MulProof Stab.GaussProof Stab.MeasureProof Stab.Engine Stab.EngineProof
+  Stab.TensorProof Stab.PermProof Stab.MeasureOrig Stab.F2 Stab.Bridge Stab.DestructiveProof Stab.EqProof Stab.MeasureFull Stab.DestructiveDet.
 Import ListNotations.
 
 Lemma all_commute_commuting n t : all_commute n t = true -> commuting n t.
@@ -69,3 +70,52 @@ Example eng_limit_reached :
   snd (step (fst (step eng_example KAddFresh)) KAddFresh) = RErr ENoQubit /\
   snd (step (new_engine 6) (KAbsorb eng_example)) = RUnit.
 Proof. repeat split; vm_compute; reflexivity. Qed.
+
+(* ---------- tensor / add_qubit / __eq__ / _contains: hypotheses satisfiable on reachable states ------------ *)
+Example bell_tensor_zero :
+  wf_tab 2 bell /\ wf_tab 1 (zero_state 1) /\ (2 = 0 -> bell = []) /\ (1 = 0 -> zero_state 1 = []) /\
+  map (decode 3) (tensor 2 bell 1 (zero_state 1)) = [(false, [PX; PX; PI]); (false, [PZ; PZ; PI]); (false, [PI; PI; PZ])] /\
+  add_qubit 2 bell = tensor 2 bell 1 (zero_state 1) /\ valid 3 (add_qubit 2 bell).
+Proof.
+  split; [apply wf_tab_dec; reflexivity|]. split; [apply wf_tab_dec; reflexivity|].
+  split; [discriminate|]. split; [discriminate|]. split; [reflexivity|]. split; [reflexivity|].
+  apply validb_sound. vm_compute. reflexivity.
+Qed.
+
+Example bell_valid_both : valid 2 bell /\ valid 2 bell' /\ teq 2 bell 2 bell' = true /\ bell <> bell'.
+Proof. split; [apply validb_sound; reflexivity|]. split; [apply validb_sound; reflexivity|]. split; [reflexivity|discriminate]. Qed.
+
+(* -YY is in the Bell group, +YY is not *)
+Example bell_contains :
+  wf_row 2 [true; true; true; true; true] /\ contains 2 bell [true; true; true; true; true] = true /\
+  decode_ph 2 [true; true; true; true; true] = (P2, [PY; PY]) /\
+  contains 2 bell [true; true; true; true; false] = false.
+Proof. repeat split; reflexivity. Qed.
+
+(* ---------- measurement, original frame --------------------------------------------------------------------- *)
+Definition ghz3 : tab := tab_gate2 GCNOT 3 1 2 (tab_gate2 GCNOT 3 0 1 (tab_gate1 GH 3 0 (zero_state 3))).
+
+Example ghz3_random :
+  1 < 3 /\ valid 3 ghz3 /\ length ghz3 = 3 /\ random_branch 3 1 ghz3 = true /\
+  measure 3 1 false true ghz3 = (true, 2, [[false; false; false; true; true]; [false; false; true; true; false]]) /\
+  fst (fst (measure 3 1 false false ghz3)) = false.
+Proof.
+  split; [lia|]. split; [apply validb_sound; vm_compute; reflexivity|]. repeat split; vm_compute; reflexivity.
+Qed.
+
+(* |0>|1>: measuring qubit 1 is deterministic with outcome 1 (-Z_1 in the group), destructive result |0> *)
+Definition zero_one : tab := tab_gate1 GX 2 1 (zero_state 2).
+
+Example zero_one_determined :
+  1 < 2 /\ valid 2 zero_one /\ length zero_one = 2 /\ random_branch 2 1 zero_one = false /\
+  measure 2 1 false false zero_one = (true, 1, [[false; true; false]]) /\
+  measure 2 1 true false zero_one = (true, 2, [[false; false; false; true; true]; [false; false; true; false; false]]).
+Proof.
+  split; [lia|]. split; [apply validb_sound; vm_compute; reflexivity|]. repeat split; vm_compute; reflexivity.
+Qed.
+
+(* repeat: both orders of coins on the GHZ state *)
+Example ghz3_repeat :
+  fst (fst (measure 3 1 true false (snd (measure 3 1 true true ghz3)))) = true /\
+  fst (fst (measure 3 1 true true (snd (measure 3 1 true false ghz3)))) = false.
+Proof. split; vm_compute; reflexivity. Qed.
